@@ -49,7 +49,7 @@ func c06Sub(w *W) {
 	overflow := w.Choose(simrt.SShape, 5) == 0
 	qlen := 128
 	if overflow {
-		qlen = 1 + w.Choose(simrt.SShape, 3)
+		qlen = w.Choose(simrt.SShape, 4) // 0: unbuffered, only a Recv already waiting gets a message
 	}
 	nops := 5 + w.Choose(simrt.SShape, 16)
 	w.SetShape("kind", kind)
